@@ -140,6 +140,10 @@ seed_struct!(#[get_seeds(seed_const = b"fourteen+1", skip_idl)] F14c {
 seed_struct!(#[get_seeds(skip_idl)] F16 {
     f0: u8, f1: u16, f2: u8, f3: u32, f4: u8, f5: u8, f6: u64, f7: u8, f8: u8, f9: u8, f10: u8, f11: u8, f12: u8,
     f13: u8, f14: u8, f15: Pubkey });
+// field NAMES the derive has no business interpreting: leading underscores, raw identifiers
+seed_struct!(#[get_seeds(skip_idl)] Und { owner: Pubkey, _index: u8 });
+seed_struct!(#[get_seeds(seed_const = b"und", skip_idl)] UndC { _a: u16, b: u8, __c: u32 });
+seed_struct!(#[get_seeds(skip_idl)] RawId { r#type: u8, r#match: u16 });
 
 /// hand-written GetSeeds WITHOUT the trailing empty seed (seeds_with_bump then pushes)
 #[derive(Debug, Clone)]
@@ -493,6 +497,9 @@ fn family() -> Vec<(&'static str, Runner)> {
         ("ManualDoc", run::<ManualDoc>),
         ("BlanketKey", run::<Pubkey>),
         ("BlanketU64", run::<u64>),
+        ("Und", run::<Und>),
+        ("UndC", run::<UndC>),
+        ("RawId", run::<RawId>),
     ]
 }
 
